@@ -25,7 +25,11 @@ import (
 // property is decided by a separate binary built with -race (harness/racejob, see
 // c09race.go).  Stream "spellings" (c09_spell.go) adds job sets over paths that are spellings
 // of one another and re-runs their jobs in fresh processes.  Stream "concurrent-save"
-// (c09_save.go): independent Files saved by goroutines at the same time.
+// (c09_save.go): independent Files saved by goroutines at the same time.  Streams "save-over"
+// (independent Files saved one after the other to ONE name) and "failed-renders" (20..100 Files
+// that fail in the formatter before an independent valid File renders) are in c09_over.go.
+// Measurements that execute the implementation (NonTrivial, measured tags, the race run) are
+// taken when a case is judged, never inside Generate (c09Lazy).
 type c09 struct{}
 
 func init() { Register(c09{}) }
@@ -52,6 +56,29 @@ func c09WithMaps(t *hist.MapTable, run func()) {
 	c09Maps = t
 	defer func() { c09Maps = nil }()
 	run()
+}
+
+// c09Lazy: a measurement that EXECUTES histories on the implementation (NonTrivial, measured
+// tags).  It is not taken while the cases are generated but when the case is judged (first thing
+// in Oracle; main reads Tags and NonTrivial after that): every execution of the implementation
+// that can block or leak then happens inside a case of the main loop first, where the per-case
+// hang guard reports it as a failing input with its history, and never inside Generate.
+const c09LazyKey = "c09-measure"
+
+func c09Lazy(c *Case, f func(c *Case)) *Case {
+	if c.Meta == nil {
+		c.Meta = map[string]interface{}{}
+	}
+	c.Meta[c09LazyKey] = f
+	return c
+}
+
+// c09Measure takes the pending measurement of a case (once).
+func c09Measure(c *Case) {
+	if f, ok := c.Meta[c09LazyKey].(func(c *Case)); ok {
+		delete(c.Meta, c09LazyKey)
+		f(c)
+	}
 }
 
 func c09ExecSafe(h hist.History) (obs []hist.Obs) {
@@ -482,9 +509,7 @@ func C09JobSets(seed int64, t string) []*Case {
 			}
 		}
 		files, jobs := C09Jobs(h)
-		same, diff := c09Collisions(files, c09Tables(files, jobs))
-		tags := []string{"jobs=" + c09Bucket(nj), fmt.Sprintf("orders=%d+%d interleaved+%d concurrent", orders+1, merges, conc),
-			fmt.Sprintf("collide-name=%v", same > 0), fmt.Sprintf("samepath-diffname=%v", diff > 0)}
+		tags := []string{"jobs=" + c09Bucket(nj), fmt.Sprintf("orders=%d+%d interleaved+%d concurrent", orders+1, merges, conc)}
 		var ks []string
 		for k := range all {
 			ks = append(ks, k)
@@ -493,8 +518,13 @@ func C09JobSets(seed int64, t string) []*Case {
 		for _, k := range ks {
 			tags = append(tags, "some-job:"+k)
 		}
-		out = append(out, &Case{Hist: h, Stream: "jobs", NonTrivial: same > 0, Tags: tags,
-			Meta: map[string]interface{}{"seed": r.Int63(), "tier": t, "colliding-pairs": same}})
+		out = append(out, c09Lazy(&Case{Hist: h, Stream: "jobs", Tags: tags,
+			Meta: map[string]interface{}{"seed": r.Int63(), "tier": t}}, func(c *Case) {
+			same, diff := c09Collisions(files, c09Tables(files, jobs))
+			c.NonTrivial = same > 0
+			c.Meta["colliding-pairs"] = same
+			c.Tags = append(c.Tags, fmt.Sprintf("collide-name=%v", same > 0), fmt.Sprintf("samepath-diffname=%v", diff > 0))
+		}))
 	}
 	return out
 }
@@ -604,14 +634,18 @@ func c09SharedCase(r *rand.Rand, t string) *Case {
 		h = append(h, hist.Op{Kind: "imports", F: f})
 	}
 	files, jobs := C09Jobs(h)
-	tables := c09Tables(files, jobs)
-	differs := false
-	for _, p := range spaths {
-		for _, f := range files[1:] {
-			if tables[f][p] != tables[files[0]][p] {
-				differs = true
+	measure := func(c *Case) {
+		tables := c09Tables(files, jobs)
+		differs := false
+		for _, p := range spaths {
+			for _, f := range files[1:] {
+				if tables[f][p] != tables[files[0]][p] {
+					differs = true
+				}
 			}
 		}
+		c.NonTrivial = differs
+		c.Tags = append(c.Tags, fmt.Sprintf("renders-differently=%v", differs))
 	}
 	feats := map[string]bool{}
 	for _, op := range h {
@@ -632,20 +666,22 @@ func c09SharedCase(r *rand.Rand, t string) *Case {
 			}
 		}
 	}
-	tags := []string{fmt.Sprintf("files=%d", k), fmt.Sprintf("shared-stmts=%d", len(shared)), fmt.Sprintf("renders=%d", len(renders)), fmt.Sprintf("renders-differently=%v", differs)}
+	tags := []string{fmt.Sprintf("files=%d", k), fmt.Sprintf("shared-stmts=%d", len(shared)), fmt.Sprintf("renders=%d", len(renders))}
 	var ks []string
 	for f := range feats {
 		ks = append(ks, f)
 	}
 	sort.Strings(ks)
 	tags = append(tags, ks...)
-	return &Case{Hist: h, Stream: "shared", NonTrivial: differs, Tags: tags, Meta: map[string]interface{}{"seed": r.Int63(), "tier": t}}
+	return c09Lazy(&Case{Hist: h, Stream: "shared", Tags: tags, Meta: map[string]interface{}{"seed": r.Int63(), "tier": t}}, measure)
 }
 
 func (c09) Generate(r *rand.Rand, t string) []*Case {
 	seed := r.Int63()
 	sets := C09JobSets(seed, t)
-	out := append([]*Case{}, sets...)
+	// stream failed-renders (c09_over.go) comes first, from a seed of its own
+	out := c09FailedCases(rand.New(rand.NewSource(seed^0xfa11ed)), t)
+	out = append(out, sets...)
 	n := tier(t, 300, 20000)
 	for i := 0; i < n; i++ {
 		out = append(out, c09SharedCase(r, t))
@@ -663,7 +699,7 @@ func (c09) Generate(r *rand.Rand, t string) []*Case {
 		c09FreshProcs = c09StartFresh(tier(t, 3, 6), t, spellSeed)
 	}
 	for _, c := range C09SpellSets(spellSeed, t) {
-		c09SpellMeasure(c)
+		c09Lazy(c, c09SpellMeasure)
 		if c09FreshProcs != nil {
 			c.Tags = append(c.Tags, fmt.Sprintf("fresh-process-orders=%d", len(c09FreshProcs.Runs)))
 		}
@@ -671,6 +707,8 @@ func (c09) Generate(r *rand.Rand, t string) []*Case {
 	}
 	// stream concurrent-save (c09_save.go); drawn last
 	out = append(out, c09SaveCases(r, t)...)
+	// stream save-over (c09_over.go); drawn after everything else
+	out = append(out, c09OverCases(r, t)...)
 	return out
 }
 
@@ -692,7 +730,12 @@ func (c09) Compare(c *Case, exp, got []hist.Obs) string {
 }
 
 func (c09) Oracle(c *Case, got []hist.Obs) string {
+	c09Measure(c)
 	switch c.Stream {
+	case "save-over":
+		return c09OverOracle(c, got)
+	case "failed-renders":
+		return c09FailedOracle(c, got)
 	case "race":
 		return c09RaceOracle(c)
 	case "shared":
@@ -970,15 +1013,19 @@ func c09SharedMapCase(r *rand.Rand, t string) *Case {
 			leaked = append(leaked, late...)
 		}
 	}
-	differs := c09SameJob(c09ExecSafe(c09Fresh(jobs[b])), c09ExecSafe(c09Fresh(leaked))) != ""
-	tags := []string{"shared-hint-map", fmt.Sprintf("files=%d", n), fmt.Sprintf("hint-map-files=%d", n), fmt.Sprintf("map-entries=%d", len(pairs)), fmt.Sprintf("leak-would-show=%v", differs)}
+	measure := func(c *Case) {
+		differs := c09SameJob(c09ExecSafe(c09Fresh(jobs[b])), c09ExecSafe(c09Fresh(leaked))) != ""
+		c.NonTrivial = differs
+		c.Tags = append(c.Tags, fmt.Sprintf("leak-would-show=%v", differs))
+	}
+	tags := []string{"shared-hint-map", fmt.Sprintf("files=%d", n), fmt.Sprintf("hint-map-files=%d", n), fmt.Sprintf("map-entries=%d", len(pairs))}
 	var ks []string
 	for f := range feats {
 		ks = append(ks, f)
 	}
 	sort.Strings(ks)
 	tags = append(tags, ks...)
-	return &Case{Hist: h, Stream: "shared-hint-map", NonTrivial: differs, Tags: tags, Meta: map[string]interface{}{"seed": r.Int63(), "tier": t}}
+	return c09Lazy(&Case{Hist: h, Stream: "shared-hint-map", Tags: tags, Meta: map[string]interface{}{"seed": r.Int63(), "tier": t}}, measure)
 }
 
 // c09MapsIntact: every map object handed to ImportNames still holds exactly the entries it
@@ -1084,6 +1131,12 @@ func (c09) Shrink(c *Case) []*Case {
 	}
 	if c.Stream == "concurrent-save" {
 		return c09SaveShrink(c)
+	}
+	if c.Stream == "failed-renders" {
+		return nil
+	}
+	if c.Stream == "save-over" {
+		return c09OverShrink(c)
 	}
 	var out []*Case
 	mk := func(h hist.History) {
